@@ -2,7 +2,11 @@
 
 package tls
 
-import "github.com/hashicorp/nodeenrollment/zzverif/vf"
+import (
+	"strings"
+
+	"github.com/hashicorp/nodeenrollment/zzverif/vf"
+)
 
 const vfPrefix = "v1-nodee-fetch-node-creds-"
 
@@ -20,6 +24,38 @@ func VerifC20Whole() {
 	vf.Assert("roundtrip", out == v)
 	vf.Reach("end")
 }
+
+// round trip with unrelated protocol names interleaved at arbitrary positions of the entry list (before, between and
+// after the chunks), for both request prefixes and 1..3 chunks
+func verifC20Interleaved(prefix string) {
+	v := vf.String("payload", 2*(240-len(prefix))+1)
+	vf.Assume(len(v) >= 1)
+	chunks, err := BreakIntoNextProtos(prefix, v)
+	vf.Assert("break-ok", err == nil)
+	f1, f2 := vf.String("foreign", 24), vf.String("foreign", 24)
+	vf.Assume(vf.And(vf.Not(strings.HasPrefix(f1, prefix)), vf.Not(strings.HasPrefix(f2, prefix))))
+	p1, p2 := vf.Int("position", 0, 3), vf.Int("position", 0, 3)
+	vf.Assume(vf.And(p1 <= len(chunks), p2 <= len(chunks)))
+	var list []string
+	for i := 0; i <= len(chunks); i++ {
+		if i == p1 {
+			list = append(list, f1)
+		}
+		if i == p2 {
+			list = append(list, f2)
+		}
+		if i < len(chunks) {
+			vf.Assert("entry-has-prefix-and-fits", vf.And(strings.HasPrefix(chunks[i], prefix), len(chunks[i]) <= 255))
+			list = append(list, chunks[i])
+		}
+	}
+	out, err := CombineFromNextProtos(prefix, list)
+	vf.Assert("combine-ok", err == nil)
+	vf.Assert("roundtrip-with-foreign-entries", out == v)
+	vf.Reach("end")
+}
+func VerifC20InterleavedFetch() { verifC20Interleaved(vfPrefix) }
+func VerifC20InterleavedAuth()  { verifC20Interleaved("v1-nodee-authenticate-node-") }
 
 // arbitrary (malformed) entries never crash the decoder
 func VerifC20Malformed() {
